@@ -450,6 +450,10 @@ class Walker:
         if isinstance(s, ast.For):
             it = subst(s.iter, p.env)
             self.ev(p, "eval", s, None, it)
+            if isinstance(it, ast.Call) and attr_chain(it.func) == "zip" and it.args and not it.keywords and all(isinstance(a, (ast.List, ast.Tuple)) for a in it.args) \
+                    and len({len(a.elts) for a in it.args}) == 1:
+                # zip of literal sequences: a literal sequence of tuples
+                it = ast.Tuple(elts=[ast.Tuple(elts=[a.elts[i] for a in it.args], ctx=ast.Load()) for i in range(len(it.args[0].elts))], ctx=ast.Load())
             if isinstance(it, (ast.List, ast.Tuple)) and 1 <= len(it.elts) <= 8 and not s.orelse and not any(isinstance(x, ast.Starred) for x in it.elts) \
                     and not any(isinstance(n, (ast.Break, ast.Continue, ast.Return)) for b in s.body for n in ast.walk(b)):
                 # a loop over a literal list is unrolled exactly
